@@ -62,7 +62,7 @@ def compile(
         )
     cache = __compiled_grammar_cache
 
-    asmodel = not semantics and (
+    asmodel = semantics is None and (
         asmodel
         or isinstance(builderconfig, BuilderConfig)
         or basetype is not None
@@ -153,9 +153,9 @@ def parse(
         **settings,
     )
     model = compile(grammar, config=config, asmodel=asmodel)
-    config.semantics = semantics or model.semantics
+    config.semantics = semantics if semantics is not None else model.semantics
 
-    asmodel = not config.semantics and (
+    asmodel = config.semantics is None and (
         asmodel
         or isinstance(builderconfig, BuilderConfig)
         or basetype is not None
